@@ -709,3 +709,22 @@ package sbom
 //@ func Edge_Type.ToSPDX2
 //@   props C01
 //@   shadow
+
+// ---------------------------------------------------------------------------
+// C09 / C10: the algebraic laws on identifier and root sets, as lemmas over the
+// postconditions of Union and Intersect (unionSets / intersectSets restate the
+// [C09:union:ids], [C09:union:roots], [C10:intersect:ids] clauses)
+// ---------------------------------------------------------------------------
+//@ pred unionSets(r *NodeList, a *NodeList, b *NodeList) = (forall x string :: (x in fieldset(r.Nodes, Id)) <==> ((x in fieldset(a.Nodes, Id)) || (x in fieldset(b.Nodes, Id)))) && (forall y string :: (y in elems(r.RootElements)) <==> ((y in elems(a.RootElements)) || (y in elems(b.RootElements))))
+//@ pred intersectIds(r *NodeList, a *NodeList, b *NodeList) = forall x string :: (x in fieldset(r.Nodes, Id)) <==> ((x in fieldset(a.Nodes, Id)) && (x in fieldset(b.Nodes, Id)))
+//@ pred sameSets(r *NodeList, s *NodeList) = (forall x string :: (x in fieldset(r.Nodes, Id)) <==> (x in fieldset(s.Nodes, Id))) && (forall y string :: (y in elems(r.RootElements)) <==> (y in elems(s.RootElements)))
+//@ pred sameIds(r *NodeList, s *NodeList) = forall x string :: (x in fieldset(r.Nodes, Id)) <==> (x in fieldset(s.Nodes, Id))
+
+//@ lemma unionCommutative [C09]: forall a *NodeList, b *NodeList, r1 *NodeList, r2 *NodeList :: unionSets(r1, a, b) && unionSets(r2, b, a) ==> sameSets(r1, r2)
+//@ lemma unionIdempotent [C09]: forall a *NodeList, r *NodeList :: unionSets(r, a, a) ==> sameSets(r, a)
+//@ lemma unionAssociative [C09]: forall a *NodeList, b *NodeList, c *NodeList, ab *NodeList, bc *NodeList, r1 *NodeList, r2 *NodeList :: unionSets(ab, a, b) && unionSets(r1, ab, c) && unionSets(bc, b, c) && unionSets(r2, a, bc) ==> sameSets(r1, r2)
+//@ lemma unionIdentity [C09]: forall a *NodeList, e *NodeList, r *NodeList :: len(e.Nodes) == 0 && len(e.RootElements) == 0 && unionSets(r, a, e) ==> sameSets(r, a)
+//@ lemma intersectCommutative [C10]: forall a *NodeList, b *NodeList, r1 *NodeList, r2 *NodeList :: intersectIds(r1, a, b) && intersectIds(r2, b, a) ==> sameIds(r1, r2)
+//@ lemma intersectIdempotent [C10]: forall a *NodeList, r *NodeList :: intersectIds(r, a, a) ==> sameIds(r, a)
+//@ lemma intersectAbsorption [C10]: forall a *NodeList, b *NodeList, u *NodeList, r *NodeList :: unionSets(u, a, b) && intersectIds(r, a, u) ==> sameIds(r, a)
+//@ lemma intersectEmpty [C10]: forall a *NodeList, e *NodeList, r *NodeList :: len(e.Nodes) == 0 && intersectIds(r, a, e) ==> len(r.Nodes) == 0 || (forall x string :: !(x in fieldset(r.Nodes, Id)))
